@@ -1,5 +1,5 @@
 """Developer entry: python3-vt -m pyvc.cli_dev <qualname> ..."""
-import sys, json
+import sys, json, os
 from .loader import Repo
 from .registry import Registry
 from .vcgen import verify_function
@@ -29,12 +29,12 @@ def main():
             print(f"   {name}: {len(recs)} instance(s) {st} {sorted(set(r['backend'] for r in recs))}")
             for r in recs:
                 if r["status"] == "refuted":
-                    print("      CEX line", r["line"], json.dumps(r.get("counterexample"), default=str)[:400], r.get("note", ""))
+                    print("      CEX line", r["line"], json.dumps(r.get("counterexample"), default=str)[:int(os.environ.get("PYVC_CEX_CHARS", "400"))], r.get("note", ""))
                     break
                 if r["status"] == "unknown":
                     print("      UNKNOWN:", r.get("reason", "")[:200])
                     break
-        import os
+        pass
         if os.environ.get("PYVC_DUMP"):
             for r in rep.obligations:
                 print("     ", r["name"].split("#")[1], r["status"], r.get("seconds"), r.get("backend"), "L%s" % r.get("line"), (r.get("conjunct") or "")[:160].replace("\n", " "))
